@@ -71,6 +71,8 @@ type fnTr struct {
 	subst      map[*ast.CallExpr]string   // immediately-invoked function literals already bound to a temporary
 	nTmp       int
 	tmpOf      map[*ast.CallExpr]string
+	ptrParams  map[types.Object]bool // non-receiver parameters of pointer type: read-only in the value model
+	viaField   bool                  // assignTo is updating a field/entry of the target, not replacing it
 	retH       []func(vals []string, d int) string // return handlers of inlined function literals
 	refs       map[string]bool            // groups referenced by the function being translated
 	structRefs map[string]map[string]bool // struct -> groups of the structs it embeds as fields
@@ -130,6 +132,7 @@ const (
 	kFloat
 	kSlice // of ints
 	kStruct
+	kMap // integer keys, value of a supported type (a pointer to a struct counts as the struct: record values only)
 	kUnit
 )
 
@@ -180,6 +183,20 @@ func (t *fnTr) typ(ty types.Type) tinfo {
 		case types.Float64, types.UntypedFloat:
 			return tinfo{kind: kFloat, bits: 64, signed: true, lean: "Rat"}
 		}
+	case *types.Map:
+		if k := t.typ(u.Key()); k.kind == kInt {
+			vt := u.Elem()
+			if pt, ok := vt.Underlying().(*types.Pointer); ok {
+				// a pointer value is accepted only for record structs (no pointer-receiver methods): anything
+				// else could be mutated through the pointer, which a value model cannot follow
+				if _, isStruct := pt.Elem().Underlying().(*types.Struct); !isStruct || hasPtrMethods(pt.Elem()) {
+					return tinfo{kind: kBad}
+				}
+			}
+			if v := t.typ(vt); v.kind == kInt || v.kind == kBool || v.kind == kFloat || v.kind == kStruct {
+				return tinfo{kind: kMap, lean: "(List (Int × " + v.lean + "))", elem: v.lean}
+			}
+		}
 	case *types.Slice:
 		return t.sliceOf(u.Elem())
 	case *types.Array:
@@ -210,6 +227,21 @@ func (t *fnTr) fieldTyp(ty types.Type) tinfo {
 
 func structPkgOK(path string) bool {
 	return strings.HasPrefix(path, modPath) || path == "github.com/pion/rtp" || path == "github.com/pion/rtcp"
+}
+
+func hasPtrMethods(t types.Type) bool {
+	nt, ok := t.(*types.Named)
+	if !ok {
+		return false
+	}
+	for i := 0; i < nt.NumMethods(); i++ {
+		if sig, ok := nt.Method(i).Type().(*types.Signature); ok && sig.Recv() != nil {
+			if _, isPtr := sig.Recv().Type().(*types.Pointer); isPtr {
+				return true
+			}
+		}
+	}
+	return false
 }
 
 // sliceOf: a slice/array whose elements are integers (List Int) or values of another supported
@@ -309,7 +341,7 @@ func zeroOf(ti tinfo) string {
 		return "false"
 	case kFloat:
 		return "(0 : Rat)"
-	case kSlice:
+	case kSlice, kMap:
 		return "([] : " + ti.lean + ")"
 	case kStruct:
 		return "({} : " + ti.lean + ")"
@@ -433,6 +465,9 @@ func (t *fnTr) expr(e ast.Expr) string {
 		return t.call(x, true)
 	case *ast.IndexExpr:
 		bt := t.typ(info.TypeOf(x.X))
+		if bt.kind == kMap {
+			return "(mapGet " + t.expr(x.X) + " " + t.expr(x.Index) + ")"
+		}
 		if bt.kind != kSlice {
 			t.fail(e, "index into %s", info.TypeOf(x.X))
 		}
@@ -461,6 +496,11 @@ func (t *fnTr) expr(e ast.Expr) string {
 func (t *fnTr) composite(x *ast.CompositeLit, ty types.Type) string {
 	ti := t.typ(ty)
 	switch ti.kind {
+	case kMap:
+		if len(x.Elts) != 0 {
+			t.fail(x, "non-empty map literal")
+		}
+		return "([] : " + ti.lean + ")"
 	case kSlice:
 		var el []string
 		var elemT types.Type
@@ -525,6 +565,9 @@ func (t *fnTr) binary(x *ast.BinaryExpr) string {
 		return "(" + a + " || " + b + ")"
 	case token.EQL, token.NEQ, token.LSS, token.LEQ, token.GTR, token.GEQ:
 		op := map[token.Token]string{token.EQL: "=", token.NEQ: "≠", token.LSS: "<", token.LEQ: "≤", token.GTR: ">", token.GEQ: "≥"}[x.Op]
+		if lt.kind == kMap {
+			t.fail(x, "map comparison")
+		}
 		if lt.kind == kSlice {
 			// only comparison with nil is legal Go
 			other := x.Y
@@ -644,6 +687,9 @@ func (t *fnTr) call(call *ast.CallExpr, asExpr bool) string {
 			switch id.Name {
 			case "len":
 				lt := t.typ(info.TypeOf(call.Args[0]))
+				if lt.kind == kMap {
+					return "(mapLen " + t.expr(call.Args[0]) + ")"
+				}
 				if lt.kind != kSlice {
 					t.fail(call, "len of %s", info.TypeOf(call.Args[0]))
 				}
@@ -660,6 +706,9 @@ func (t *fnTr) call(call *ast.CallExpr, asExpr bool) string {
 				return s
 			case "make":
 				mt := t.typ(info.TypeOf(call))
+				if mt.kind == kMap {
+					return "([] : " + mt.lean + ")"
+				}
 				if mt.kind != kSlice || len(call.Args) != 2 {
 					t.fail(call, "make of %s", info.TypeOf(call))
 				}
@@ -796,6 +845,12 @@ func (t *fnTr) assignTo(lhs ast.Expr, val string, d int) string {
 		if t.typ(o.Type()).kind == kBad {
 			t.fail(lhs, "variable %s has unsupported type %s", l.Name, o.Type())
 		}
+		if _, isPtr := o.Type().Underlying().(*types.Pointer); isPtr && o != t.recv && t.viaField {
+			// a field or element is assigned through a pointer that is not the receiver: whoever else holds the
+			// pointer (the caller, a map entry, a slice element) would see the change — not expressible with values
+			t.fail(lhs, "mutation through the pointer variable %s", l.Name)
+		}
+		t.viaField = false
 		return ind(d) + "let " + t.name(o) + ascribe(t.typ(o.Type()), val) + " := " + val + "\n"
 	case *ast.SelectorExpr:
 		sel, ok := info.Selections[l]
@@ -806,14 +861,19 @@ func (t *fnTr) assignTo(lhs ast.Expr, val string, d int) string {
 			t.fail(lhs, "field %s has unsupported type", exprText(lhs))
 		}
 		inner := "{ " + t.expr(l.X) + " with " + fieldLean(l.Sel.Name) + " := " + val + " }"
+		t.viaField = true
 		return t.assignTo(l.X, inner, d)
 	case *ast.IndexExpr:
 		lt := t.typ(info.TypeOf(l.X))
+		if lt.kind == kMap {
+			t.viaField = true
+			return t.assignTo(l.X, "(mapSet "+t.expr(l.X)+" "+t.expr(l.Index)+" "+val+")", d)
+		}
 		if lt.kind != kSlice {
 			t.fail(lhs, "indexed assignment into %s", info.TypeOf(l.X))
 		}
 		inner := "(" + sop(lt, "set") + " " + t.expr(l.X) + " " + t.expr(l.Index) + " " + val + ")"
-		return t.assignTo(l.X, inner, d)
+		return t.assignTo(l.X, inner, d) // (a slice header is a value; writes into a slice parameter stay local: FNPROOFS.md)
 	}
 	t.fail(lhs, "assignment target %s", exprText(lhs))
 	return ""
@@ -878,9 +938,11 @@ func (t *fnTr) callStmt(call *ast.CallExpr, lhs []ast.Expr, d int, rest cont) st
 	val := "__c"
 	if fi.mutates {
 		if fi.nres == 0 {
+			t.viaField = true
 			s += t.assignTo(recvExpr, "__c", d)
 			val = ""
 		} else {
+			t.viaField = true
 			s += t.assignTo(recvExpr, "__c.2", d)
 			val = "__c.1"
 		}
@@ -956,6 +1018,11 @@ func (t *fnTr) stmts(list []ast.Stmt, d int, k cont) string {
 		if isMutexCall(callee(info, call)) {
 			return rest(d)
 		}
+		if id, ok := ast.Unparen(call.Fun).(*ast.Ident); ok && id.Name == "delete" {
+			if _, isB := info.Uses[id].(*types.Builtin); isB && t.typ(info.TypeOf(call.Args[0])).kind == kMap {
+				return t.assignTo(call.Args[0], "(mapDel "+t.expr(call.Args[0])+" "+t.expr(call.Args[1])+")", d) + rest(d)
+			}
+		}
 		return t.callStmt(call, nil, d, rest)
 	case *ast.DeclStmt:
 		gd, ok := s.Decl.(*ast.GenDecl)
@@ -997,6 +1064,13 @@ func (t *fnTr) stmts(list []ast.Stmt, d int, k cont) string {
 		}
 		if s.Tok != token.ASSIGN && s.Tok != token.DEFINE {
 			t.fail(s, "assignment operator %s", s.Tok)
+		}
+		if len(s.Rhs) == 1 && len(s.Lhs) == 2 {
+			if ix, ok := ast.Unparen(s.Rhs[0]).(*ast.IndexExpr); ok && t.typ(info.TypeOf(ix.X)).kind == kMap {
+				// v, ok := m[k]
+				m, k := t.expr(ix.X), t.expr(ix.Index)
+				return t.assignTo(s.Lhs[0], "(mapGet "+m+" "+k+")", d) + t.assignTo(s.Lhs[1], "(mapHas "+m+" "+k+")", d) + rest(d)
+			}
 		}
 		if len(s.Rhs) == 1 {
 			if call, ok := ast.Unparen(s.Rhs[0]).(*ast.CallExpr); ok {
@@ -1061,6 +1135,8 @@ func (t *fnTr) stmts(list []ast.Stmt, d int, k cont) string {
 		return t.switchStmt(s, d, rest)
 	case *ast.ForStmt:
 		return t.forStmt(s, d, rest)
+	case *ast.RangeStmt:
+		return t.rangeStmt(s, d, rest)
 	}
 	t.fail(list[0], "unsupported statement %T", list[0])
 	return ""
@@ -1232,6 +1308,32 @@ func (t *fnTr) switchStmt(s *ast.SwitchStmt, d int, rest cont) string {
 		return out
 	}
 	return gen(0, d)
+}
+
+// rangeStmt: the only range loop over a map that is translated is the order-independent idiom
+//   for k := range m { if cond(k) { delete(m, k) } }      ↦   m := mapFilter (fun k => !cond k) m
+func (t *fnTr) rangeStmt(s *ast.RangeStmt, d int, rest cont) string {
+	info := t.p.TypesInfo
+	if t.typ(info.TypeOf(s.X)).kind == kMap && s.Value == nil && s.Key != nil && len(s.Body.List) == 1 {
+		if is, ok := s.Body.List[0].(*ast.IfStmt); ok && is.Init == nil && is.Else == nil && len(is.Body.List) == 1 {
+			if es, ok := is.Body.List[0].(*ast.ExprStmt); ok {
+				if call, ok := es.X.(*ast.CallExpr); ok {
+					if id, ok := ast.Unparen(call.Fun).(*ast.Ident); ok && id.Name == "delete" && len(call.Args) == 2 &&
+						exprText(call.Args[0]) == exprText(s.X) && exprText(call.Args[1]) == exprText(s.Key) {
+						kid, ok := s.Key.(*ast.Ident)
+						if !ok {
+							t.fail(s, "range key")
+						}
+						k := t.name(info.ObjectOf(kid))
+						cond := t.expr(is.Cond)
+						return t.assignTo(s.X, "(mapFilter (fun ("+k+" : Int) => !"+cond+") "+t.expr(s.X)+")", d) + rest(d)
+					}
+				}
+			}
+		}
+	}
+	t.fail(s, "range loop (only `for k := range m { if c { delete(m, k) } }` over a map is supported)")
+	return ""
 }
 
 // assignedVars: the variables (declared outside `n`) and receiver that statements under n assign.
@@ -1481,6 +1583,7 @@ func (t *fnTr) function(fd *ast.FuncDecl, fi *fnInfo) (src string, err error) {
 	t.cur = fi
 	t.subst = map[*ast.CallExpr]string{}
 	t.tmpOf = map[*ast.CallExpr]string{}
+	t.ptrParams = map[types.Object]bool{}
 	t.retH = nil
 	t.nTmp = 0
 	t.names = map[types.Object]string{}
@@ -1504,6 +1607,9 @@ func (t *fnTr) function(fd *ast.FuncDecl, fi *fnInfo) (src string, err error) {
 			ti := t.typ(o.Type())
 			if ti.kind == kBad {
 				t.fail(fd, "parameter %s has unsupported type %s", n.Name, o.Type())
+			}
+			if _, isPtr := o.Type().Underlying().(*types.Pointer); isPtr {
+				t.ptrParams[o] = true
 			}
 			params = append(params, "("+t.name(o)+" : "+ti.lean+")")
 		}
